@@ -292,7 +292,7 @@ func main() {
 		for _, kind := range []string{"fact", "rule"} {
 			for _, enc := range []string{"expires-num", "expires-rfc3339", "ttl-num", "ttl-dur", "none"} {
 				for _, state := range drv.Kinds {
-					for variant := 0; variant < 4; variant++ {
+					for variant := 0; variant < 5; variant++ {
 						ahead := 3 + g.Intn(2)
 						E := ahead * 1000
 						var steps []string
@@ -306,7 +306,14 @@ func main() {
 							steps = []string{"150:" + a(), "1300:reload", "1450:" + a(), fmt.Sprintf("%d:%s", E+1200, a()), fmt.Sprintf("%d:%s", E+1400, a())}
 						case 1: // reload immediately, reads around E, reload after E
 							steps = []string{"50:reload", "300:" + a(), fmt.Sprintf("%d:%s", E-1500, a()), fmt.Sprintf("%d:reload", E+1100), fmt.Sprintf("%d:%s", E+1300, a()), fmt.Sprintf("%d:%s", E+1500, a())}
-						case 3: // the storage fails exactly when the expired item is first seen
+						case 4: // one kind of observation only, nothing else touches the item in between (a rule that
+						// was dispatched before its expiry sits in the parsed-rule cache when the expiry passes)
+						one := a()
+						if kind == "rule" {
+							one = "dispatch"
+						}
+						steps = []string{"150:" + one, fmt.Sprintf("%d:%s", E-1300, one), fmt.Sprintf("%d:%s", E+1200, one), fmt.Sprintf("%d:%s", E+1500, one)}
+					case 3: // the storage fails exactly when the expired item is first seen
 							steps = []string{"150:" + a(), fmt.Sprintf("%d:fault-%s", E+1200, a()), fmt.Sprintf("%d:%s", E+1400, a()), fmt.Sprintf("%d:%s", E+1500, a())}
 						default: // reads only, dense around the boundary second
 							steps = []string{"100:" + a(), fmt.Sprintf("%d:%s", E-1200, a()), fmt.Sprintf("%d:%s", E-200, a()), fmt.Sprintf("%d:%s", E+300, a()), fmt.Sprintf("%d:%s", E+1100, a()), fmt.Sprintf("%d:reload", E+1200), fmt.Sprintf("%d:%s", E+1400, a())}
